@@ -488,15 +488,20 @@ impl MqttConnProbe {
             .load(SeqCst)
     }
 
-    /// The settings the runner currently holds (topic template, qos,
-    /// publish_max_secs, connect_retry_secs).
-    pub fn held_config(&self) -> (String, i32, u64, u64) {
+    /// The settings the runner currently holds.
+    pub fn held_config(&self) -> ProbeConfig {
         let c: arc_swap::Guard<Arc<Config>> = self.runner.config.load();
-        (
-            c.topic_template.clone(),
-            c.qos,
-            c.publish_max_secs.as_secs(),
-            c.connect_retry_secs.as_secs(),
-        )
+        ProbeConfig {
+            host: c.destination.host.clone(),
+            port: c.destination.port,
+            client_id: c.client_id.0.clone(),
+            queue_size: c.queue_size,
+            topic_template: c.topic_template.clone(),
+            connect_retry_secs: c.connect_retry_secs.as_secs(),
+            publish_max_secs: c.publish_max_secs.as_secs(),
+            qos: c.qos,
+            username: c.username.clone(),
+            password: c.password.clone(),
+        }
     }
 }
